@@ -96,6 +96,9 @@ partial def pFuncItem : P HCode := do
   match t with
   | "m" => pArg
   | "a" => do let a ← pArg; pure (.stmt [a])
+  -- "h": an Add performed re-entrantly from inside the next item's callback; the callback runs
+  -- while that item is built, i.e. before it is appended, so it is an Add at this place
+  | "h" => do let a ← pArg; pure (.stmt [a])
   | _ => throw s!"bad func item tag {t}"
 partial def pSItem : P (List HCode) := do
   let t ← next
